@@ -344,6 +344,10 @@ def discharge_by_pattern(crate, e):
             v = nonzero_const(b, c.args[1], e.bb)
             if v:
                 return "division by the non-zero constant %s" % v
+    if e.kind == "index":
+        why = const_ascii_prefix(b, e.meta["call"])
+        if why:
+            return why
     if e.kind == "duration-ctor":
         c = e.meta["call"]
         if all(isinstance(const_val(a), int) for a in c.args) and (len(c.args) < 2 or const_val(c.args[1]) < 1000000000):
@@ -469,6 +473,69 @@ def nonzero_const(b, op, at):
     ds = [d for d in b.defs().get(l, ()) if d["kind"] != "param"]
     if len(ds) == 1 and ds[0]["kind"] == "assign" and ds[0]["rv"]["k"] in ("use", "cast"):
         return nonzero_const(b, ds[0]["rv"]["op"], ds[0]["bb"])
+    if len(ds) == 1 and ds[0]["kind"] == "call" and ds[0]["call"].matches(r"std::time::Duration::as_secs") and ds[0]["call"].args:
+        # whole seconds of a named Duration constant (`DAY.as_secs()`): the driver records the constant's bytes
+        o, at = ds[0]["call"].args[0], ds[0]["call"].bb
+        for _ in range(6):
+            if not isinstance(o, dict) or o.get("k") == "const":
+                break
+            l2 = operand_local(o)
+            d2 = [d for d in b.defs().get(l2, ()) if d["kind"] != "param"] if l2 is not None and not [e for e in o["place"]["p"] if e != "*"] else []
+            if len(d2) != 1 or d2[0]["kind"] != "assign":
+                o = None
+                break
+            rv = d2[0]["rv"]
+            if rv["k"] == "use":
+                o = rv["op"]
+            elif rv["k"] in ("ref", "copyderef") and not [e for e in rv["place"]["p"] if e != "*"]:
+                o = {"k": "copy", "place": {"l": rv["place"]["l"], "p": []}}
+            else:
+                o = None
+                break
+        hx = (o.get("ref_hex") or o.get("hex")) if isinstance(o, dict) and o.get("k") == "const" and "Duration" in o.get("ty", "") else None
+        if hx and len(hx) >= 16:
+            return int.from_bytes(bytes.fromhex(hx[:16]), "little") or None
+        return None
+    if len(ds) == 1 and ds[0]["kind"] == "call" and ds[0]["call"].path.endswith("str::<impl str>::len") and ds[0]["call"].args:
+        from .affine import const_str_of
+        cs = const_str_of(b, ds[0]["call"].args[0], ds[0]["call"].bb)
+        return len(cs.encode("utf-8")) or None if cs is not None else None
+    return None
+
+
+def const_ascii_prefix(b, c):
+    """`CONST[..k]` / `CONST[a..k]` of an ASCII string constant with k = x % CONST.len() or min(x, CONST.len()): every offset
+    is a char boundary and k <= len."""
+    from .affine import const_str_of
+    if len(c.args) < 2:
+        return None
+    cs = const_str_of(b, c.args[0], c.bb)
+    if cs is None or not cs.isascii():
+        return None
+    n = len(cs)
+    rl = operand_local(c.args[1])
+    ds = [d for d in b.defs().get(rl, ()) if d["kind"] == "assign" and d["rv"]["k"] == "agg" and b.def_reaches(d, c.bb)] if rl is not None else []
+    if len(ds) != 1 or not str(ds[0]["rv"].get("adt", "")).endswith("::RangeTo") or len(ds[0]["rv"]["ops"]) != 1:
+        return None
+    k = ds[0]["rv"]["ops"][0]
+    kv = const_val(k)
+    if isinstance(kv, int) and not isinstance(kv, bool):
+        return "constant prefix of an ASCII constant" if kv <= n else None
+    kl = operand_local(k)
+    kd = [d for d in b.defs().get(kl, ()) if d["kind"] != "param" and b.def_reaches(d, ds[0]["bb"])] if kl is not None else []
+    for _ in range(4):
+        if len(kd) == 1 and kd[0]["kind"] == "assign" and kd[0]["rv"]["k"] == "use" and operand_local(kd[0]["rv"]["op"]) is not None and not kd[0]["rv"]["op"]["place"]["p"]:
+            at = kd[0]["bb"]
+            kd = [d for d in b.defs().get(operand_local(kd[0]["rv"]["op"]), ()) if d["kind"] != "param" and b.def_reaches(d, at)]
+    if len(kd) != 1:
+        return None
+    d = kd[0]
+    if d["kind"] == "assign" and d["rv"]["k"] == "bin" and d["rv"]["op"] == "Rem" and nonzero_const(b, d["rv"]["b"], d["bb"]) is not None \
+            and nonzero_const(b, d["rv"]["b"], d["bb"]) <= n:
+        return "prefix `x %% %d` of an ASCII constant of %d bytes: in range and on a char boundary" % (nonzero_const(b, d["rv"]["b"], d["bb"]), n)
+    if d["kind"] == "call" and d["call"].matches(r"core::num::<impl usize>::min", r"std::cmp::Ord::min", r"std::cmp::min") and \
+            any((nonzero_const(b, a, d["call"].bb) or n + 1) <= n or const_val(a) == 0 for a in d["call"].args):
+        return "prefix min(x, len) of an ASCII constant: in range and on a char boundary"
     return None
 
 
